@@ -253,6 +253,12 @@ def rule_s3(ctx: Ctx) -> None:
         ctx.ok("C19-S3", fs.where, "same step for every selected strategy: construct on the basis, keep iff applies()", lp, fs)
     else:
         ctx.violation("C19-S3", fs, lp, "the per-strategy step is not `obj = strategy(basis); if obj.applies(): keep obj` over the selected list")
+    accs = [unparse(n.func.value) for n in ast.walk(lp) if isinstance(n, ast.Call) and isinstance(n.func, ast.Attribute) and n.func.attr == "append"]
+    last = fs.body[-1]
+    if len(accs) == 1 and isinstance(last, ast.Return) and last.value is not None and unparse(last.value) in (accs[0], f"list({accs[0]})"):
+        ctx.ok("C19-S3", fs.where, f"the strategies that apply (`{accs[0]}`) are what is returned, in registry order", last, fs)
+    else:
+        ctx.violation("C19-S3", fs, last, f"find_strategies does not end by returning the collected strategies")
 
 
 def rule_s4(ctx: Ctx) -> None:
@@ -299,6 +305,7 @@ def _variants():
         V("fast-without-insenc", replace_expr(IN, None, "[InsertionEncodingStrategy]", "[]"), "fire", "C19-S3"),
         V("quick-iterates-core", replace_stmt(IN, "find_strategies", "strategies = fast_enumeration_strategies", "strategies = core_strategies"), "fire", "C19-S3"),
         V("all-without-long", replace_expr(IN, None, "fast_enumeration_strategies + long_enumeration_strategies", "fast_enumeration_strategies + []"), "fire", "C19-S3"),
+        V("find-strategies-result-dropped", replace_stmt(IN, "find_strategies", "return working_strategies", "return []"), "fire", "C19-S3"),
         V("flag-inverted", replace_expr(IN, "find_strategies", "long_runnning", "not long_runnning", which=1), "fire", "C19-S3"),
         V("keeps-non-applying", replace_expr(IN, "find_strategies", "strategy_object.applies()", "not strategy_object.applies()"), "fire", "C19-S3"),
         V("insenc-strategy-rightmost-only", replace_stmt(IE, "InsertionEncodingStrategy.applies", "return InsertionEncodablePerms.is_insertion_encodable(self.basis) or InsertionEncodablePerms.is_insertion_encodable(rotate_90_clockwise_set(self.basis))",
